@@ -5,7 +5,11 @@
 #include <opentelemetry/sdk/common/global_log_handler.h>
 #include <opentelemetry/sdk/logs/batch_log_record_processor.h>
 #include <opentelemetry/sdk/logs/exporter.h>
+#include <opentelemetry/sdk/logs/simple_log_record_processor.h>
+#include <opentelemetry/sdk/metrics/export/periodic_exporting_metric_reader.h>
+#include <opentelemetry/sdk/metrics/export/periodic_exporting_metric_reader_options.h>
 #include <opentelemetry/sdk/metrics/meter_provider.h>
+#include <opentelemetry/sdk/metrics/push_metric_exporter.h>
 #include <opentelemetry/sdk/metrics/metric_reader.h>
 #include <opentelemetry/sdk/metrics/view/view_registry.h>
 #include <opentelemetry/sdk/resource/resource.h>
@@ -44,6 +48,14 @@ struct Reader final : sdkm::MetricReader {
   sdkm::AggregationTemporality GetAggregationTemporality(sdkm::InstrumentType) const noexcept override { return t; }
   bool OnForceFlush(microseconds) noexcept override { return true; }
   bool OnShutDown(microseconds) noexcept override { return true; }
+};
+
+struct PushExp final : sdkm::PushMetricExporter {
+  long plain = 0;  // deliberately non-atomic: Export must never run concurrently on one exporter
+  sdkc::ExportResult Export(const sdkm::ResourceMetrics &d) noexcept override { plain += (long)d.scope_metric_data_.size() + 1; g_exported++; return sdkc::ExportResult::kSuccess; }
+  sdkm::AggregationTemporality GetAggregationTemporality(sdkm::InstrumentType) const noexcept override { return sdkm::AggregationTemporality::kCumulative; }
+  bool ForceFlush(microseconds) noexcept override { return true; }  // may run concurrently with Export (C03 only orders Export against Export)
+  bool Shutdown(microseconds) noexcept override { return true; }
 };
 
 int main(int argc, char **argv) {
@@ -87,6 +99,30 @@ int main(int argc, char **argv) {
       ts.emplace_back([&] { for (int i = 0; i < 5; ++i) r1->Collect([](sdkm::ResourceMetrics &) { return true; }); });
       ts.emplace_back([&] { for (int i = 0; i < 5; ++i) r2->Collect([](sdkm::ResourceMetrics &) { return true; }); });
       for (auto &t : ts) t.join();
+    }
+    {
+      sdkl::SimpleLogRecordProcessor p(std::unique_ptr<sdkl::LogRecordExporter>(new Exp<sdkl::LogRecordExporter, vfstub::LogRec, sdkl::Recordable>()));
+      std::vector<std::thread> ts;
+      for (int t = 0; t < 3; ++t) ts.emplace_back([&] { for (int i = 0; i < 6; ++i) p.OnEmit(std::unique_ptr<sdkl::Recordable>(new vfstub::LogRec())); });
+      ts.emplace_back([&] { p.ForceFlush(milliseconds(50)); });
+      if (it % 2 == 0) ts.emplace_back([&] { p.Shutdown(); });
+      for (auto &t : ts) t.join();
+    }
+    {
+      // periodic reader behind a provider: timer-driven cycles racing ForceFlush callers, recorders and Shutdown
+      sdkm::MeterProvider provider(std::unique_ptr<sdkm::ViewRegistry>(new sdkm::ViewRegistry()), opentelemetry::sdk::resource::Resource::GetEmpty());
+      sdkm::PeriodicExportingMetricReaderOptions o;
+      o.export_interval_millis = milliseconds(3);
+      o.export_timeout_millis = milliseconds(2);
+      provider.AddMetricReader(std::shared_ptr<sdkm::MetricReader>(new sdkm::PeriodicExportingMetricReader(std::unique_ptr<sdkm::PushMetricExporter>(new PushExp()), o)));
+      auto meter = provider.GetMeter("m", "1");
+      auto counter = meter->CreateUInt64Counter("c");
+      std::vector<std::thread> ts;
+      for (int t = 0; t < 2; ++t) ts.emplace_back([&] { for (int i = 0; i < 20; ++i) counter->Add(1); });
+      for (int t = 0; t < 2; ++t) ts.emplace_back([&] { provider.ForceFlush(milliseconds(50)); });
+      if (it % 2 == 0) ts.emplace_back([&] { provider.Shutdown(); });
+      for (auto &t : ts) t.join();
+      provider.Shutdown();
     }
   }
   printf("tsan pass: %d iterations, %ld records exported\n", iters, g_exported.load());
